@@ -2,6 +2,8 @@ package props
 
 import (
 	"fmt"
+	"os"
+	"strconv"
 	"reflect"
 	"runtime/debug"
 	"strings"
@@ -131,50 +133,65 @@ func safeCompile(p *ast.Program, c Cfg) (code string, perr interface{}, stack st
 	return compile(p, c).Code, nil, ""
 }
 
-// c11Check: Kind "single-edit-sweep" enumerates every single-lexeme edit of the
-// (valid) program in Src - deletion of each lexeme, its replacement by each
-// entry of sweepLexemes, and the insertion of each entry in front of it - and
-// checks each edited text; every other kind checks Src itself.
-func c11Check(c c11Case, rec *evid.Recorder) *Fail {
-	if c.Kind != "single-edit-sweep" {
-		return c11CheckText(c, rec)
-	}
-	src := string(c.Src)
+// singleEdits enumerates every single-lexeme edit of a text: deletion of each
+// lexeme, its replacement by each entry of sweepLexemes, the insertion of each
+// entry in front of it, each entry appended, and every truncation at a lexeme
+// boundary.
+func singleEdits(src string, visit func(what, text string)) {
 	lx := scanAllLexemes(src)
-	n := 0
-	try := func(edit, text string) *Fail {
-		n++
-		if f := c11CheckText(c11Case{Src: []byte(text), Kind: c.Kind}, rec); f != nil {
-			f.Msg = fmt.Sprintf("[%s of %q] %s", edit, src, f.Msg)
-			return f
-		}
-		return nil
-	}
 	for i, l := range lx {
 		end := l.off + l.len
-		if f := try(fmt.Sprintf("deleting lexeme %d", i), src[:l.off]+" "+src[end:]); f != nil {
-			return f
-		}
+		visit(fmt.Sprintf("truncation before lexeme %d", i), src[:l.off])
+		visit(fmt.Sprintf("deleting lexeme %d", i), src[:l.off]+" "+src[end:])
 		for _, w := range sweepLexemes {
-			if f := try(fmt.Sprintf("replacing lexeme %d by %q", i, w), src[:l.off]+w+src[end:]); f != nil {
-				return f
-			}
-			if f := try(fmt.Sprintf("inserting %q before lexeme %d", w, i), src[:l.off]+w+" "+src[l.off:]); f != nil {
-				return f
-			}
+			visit(fmt.Sprintf("replacing lexeme %d by %q", i, w), src[:l.off]+w+src[end:])
+			visit(fmt.Sprintf("inserting %q before lexeme %d", w, i), src[:l.off]+w+" "+src[l.off:])
 		}
 	}
 	for _, w := range sweepLexemes {
-		if f := try(fmt.Sprintf("appending %q", w), src+" "+w); f != nil {
-			return f
-		}
+		visit(fmt.Sprintf("appending %q", w), src+" "+w)
 	}
-	rec.ClassN("sweep:edited-texts", n)
-	rec.Class("sweep:programs")
-	return nil
 }
 
-var c11Sweeps int
+// sweepPrograms returns the valid programs whose single edits this shard
+// enumerates: a fixed one (shard 0) plus n drawn with rapid's Example from
+// seeds derived from VERIF_SEED and the shard number (deterministic, no
+// shrinking needed: every edited text is reported as a case of its own).
+func sweepPrograms(n int) []string {
+	sh, _ := shard()
+	var out []string
+	if sh == 0 {
+		out = append(out, "if (a) b; else c\nwhile (d) { e }\nfor (let i = 0; i < 3; i++) f(i)\nfunction g(h) { return {k: [h]} }\nlet s = 'x' + `y`\nx.y[z](1, -w)++")
+	}
+	base, _ := strconv.Atoi(os.Getenv("VERIF_SEED"))
+	g := rapid.Custom(func(t *rapid.T) string {
+		r := gen.R{T: t}
+		sg := &gen.Syn{R: r, MaxDepth: 1 + r.Intn(2, "depth"), StmtDepth: r.Intn(3, "sdepth"), Tpl: true}
+		src, _ := layout.Source(r, sg.Program(3), layout.Options{Random: r.Bool("randlayout"), ASI: true})
+		return src
+	})
+	for k := 0; k < n; k++ {
+		out = append(out, g.Example(base*100003+sh*1009+k+1))
+	}
+	return out
+}
+
+func c11Exhaustive(rec *evid.Recorder, report func(c11Case)) {
+	n := 8
+	if thorough() {
+		n = 150
+	}
+	for _, src := range sweepPrograms(n) {
+		rec.Class("sweep:programs")
+		singleEdits(src, func(what, text string) {
+			rec.Class("sweep:edited-texts")
+			report(c11Case{Src: []byte(text), Kind: "single-edit"})
+		})
+	}
+	rec.Exhaustive("every single-lexeme edit (delete / replace by or insert each of 31 lexemes / truncate) of the swept programs")
+}
+
+func c11Check(c c11Case, rec *evid.Recorder) *Fail { return c11CheckText(c, rec) }
 
 var sweepLexemes = []string{"(", ")", "{", "}", "[", "]", ",", ";", ":", ".", "=", "+", "-", "++", "!", "==", "+=", "let", "function", "if", "else", "while", "for", "return", "x", "1", "\"s\"", "`t`", "\"open", "@", "\n"}
 
@@ -327,18 +344,7 @@ func mutateTokens(r gen.R, toks []*layout.Tok) string {
 
 func c11Gen(t *rapid.T, rec *evid.Recorder) c11Case {
 	r := gen.R{T: t}
-	kind := r.Pick("c11kind", 100, 40, 60, 1)
-	if kind == 3 && !thorough() && c11Sweeps >= 8 {
-		kind = 0 // quick tier: at most 8 sweeps per shard (each checks ~1000 edited texts)
-	}
-	switch kind {
-	case 3:
-		c11Sweeps++
-		g := &gen.Syn{R: r, MaxDepth: 1 + r.Intn(2, "depth"), StmtDepth: r.Intn(3, "sdepth"), Tpl: true}
-		tree := g.Program(3)
-		src, _ := layout.Source(r, tree, layout.Options{Random: r.Bool("randlayout"), ASI: true})
-		rec.Class("gen:single-edit-sweep")
-		return c11Case{Src: []byte(src), Kind: "single-edit-sweep"}
+	switch r.Pick("c11kind", 5, 2, 3) {
 	case 0:
 		g := &gen.Syn{R: r, MaxDepth: 1 + r.Intn(3, "depth"), StmtDepth: r.Intn(3, "sdepth"), RichStr: true, Tpl: true, MultiTpl: true}
 		tree := g.Program(4)
@@ -362,14 +368,13 @@ func c11Gen(t *rapid.T, rec *evid.Recorder) c11Case {
 }
 
 var c11Witnesses = []c11Case{
-	{Src: []byte("if (a) b; else c\nwhile (d) e\nfor (let i = 0; i < 3; i++) f(i)\nfunction g(h) { return {k: [h]} }"), Kind: "single-edit-sweep"},
 	{Src: []byte("let")}, {Src: []byte("let x = ;")}, {Src: []byte("function (")}, {Src: []byte("{ let } a")}, {Src: []byte("if (a")}, {Src: []byte("a b")},
 	{Src: []byte("for (;;")}, {Src: []byte("f(,)")}, {Src: []byte("x = {a:}")}, {Src: []byte("return return")}, {Src: []byte("((((")}, {Src: []byte("}")}, {Src: []byte("a.")}, {Src: []byte("a[")},
 	{Src: []byte("function f() { let }")}, {Src: []byte("while (a) let")}, {Src: []byte("if (a) function")}, {Src: []byte("1e+")}, {Src: []byte("0x")}, {Src: []byte("99999999999999999999")},
 }
 
 func TestC11(t *testing.T) {
-	run(t, &prop[c11Case]{ID: "C11", Gen: c11Gen, Check: c11Check, Witnesses: c11Witnesses})
+	run(t, &prop[c11Case]{ID: "C11", Gen: c11Gen, Check: c11Check, Exhaustive: c11Exhaustive, Witnesses: c11Witnesses})
 }
 
 func FuzzC11(f *testing.F) {
